@@ -3,6 +3,7 @@ package world
 import (
 	"context"
 	"errors"
+	"fmt"
 	"math"
 	"time"
 
@@ -208,6 +209,10 @@ func (w *W) value(a *scen.Arg) any {
 	case "nilerr":
 		var e error
 		return e
+	case "relog":
+		// a value that logs while it is being formatted: its String() issues a record of its own on
+		// another logger (if the world has it) and then returns its text
+		return &relogStringer{w: w, l: int(a.I), tok: a.S}
 	case "stringer":
 		if a.Y {
 			return &yStringer{w, a.S}
@@ -338,4 +343,24 @@ func (w *W) value(a *scen.Arg) any {
 		return x
 	}
 	return a.S
+}
+
+// relogStringer logs a record through logger l from inside its String method.
+type relogStringer struct {
+	w   *W
+	l   int
+	tok string
+}
+
+func (r *relogStringer) String() string {
+	if l := r.w.logger(r.l); l != nil {
+		l.Info("nested " + r.tok)
+	}
+	n := 0
+	for _, c := range r.tok {
+		if c >= '0' && c <= '9' {
+			n = n*10 + int(c-'0')
+		}
+	}
+	return fmt.Sprintf("relog-%d", n)
 }
